@@ -320,7 +320,7 @@ PROPS = {
         "inv": ["BaseProject.simulate", "BaseProject.initialize", "BaseWorkflow.initialize", "BaseOrganization.initialize", "BaseProduct.initialize",
                 "BaseTask.initialize", "BaseWorker.initialize", "BaseFacility.initialize", "BaseTeam.initialize", "BaseWorkplace.initialize",
                 "BaseComponent.initialize", "BaseWorkflow.__check_finished", "BaseWorkflow.__check_ready"],
-        "static": COMMON_STATIC + ["c15_no_loop_carried_locals"],
+        "static": COMMON_STATIC + ["c15_no_loop_carried_locals", "c16_restore_in_saved_order"],
         "level_text": "In-memory pause/resume rests on three function-level facts, all discharged: (1) the main loop of simulate carries no "
                       "state in local variables (static def-use obligation); (2) initialize(state_info=False, log_info=False) is verified to "
                       "leave every state and log attribute of every class unchanged (whole-array frames); (3) repeating the update phase at "
@@ -335,7 +335,7 @@ PROPS = {
     },
     "C16": {
         "inv": ["BaseTask.__init__", "BaseWorker.__init__"],
-        "static": COMMON_STATIC + ["c16_definite_assignment", "c16_read_keys_exported", "c16_format_complete"],
+        "static": COMMON_STATIC + ["c16_definite_assignment", "c16_read_keys_exported", "c16_format_complete", "c16_export_faithful", "c16_restore_in_saved_order"],
         "level_text": "Static obligations over the real export/read code: every attribute read by export_dict_json_data is assigned by "
                       "__init__ on all paths (writing cannot raise AttributeError), every key read on load is written on save, every "
                       "constructor parameter whose attribute is read on the simulation path is saved and passed back. Deductive "
